@@ -3,11 +3,14 @@
 # A check must stay quiet (exit 0) or, when a tie / correspondence broke, end with no-failing-input-found.
 cd /verif
 out=refactors/RESULTS.md
+glob=${REF_GLOB:-r*}
+if [ -z "${REF_APPEND:-}" ]; then
 echo "# Harmless refactorings vs. checks (quick tier): a check must not report a failing input" > $out
 echo >> $out
 echo "| refactoring | summary | checks that reported something |" >> $out
 echo "|---|---|---|" >> $out
-for d in refactors/r*/; do
+fi
+for d in refactors/$glob/; do
   id=$(basename $d)
   summ=$(python3 -c "import json;m=json.load(open('$d/meta.json'));print(m['summary'].replace('|','/').replace('\n',' ')[:300])")
   git -C /repo apply /verif/$d/patch.diff || { echo "| $id | patch does not apply | |" >> $out; continue; }
